@@ -22,10 +22,10 @@ from vf.core import CaseResult, Ctx, Violation, hyp_run, exc_sig
 PROP_ID = 'C16'
 LEVEL = 'exploration'
 # total cases (exhaustive box part + Hypothesis part) over all shards
-HYP_N = {'quick': 12000, 'thorough': 100000}
+HYP_N = {'quick': 5000, 'thorough': 80000}
 BOX_STRIDE = {'quick': 20, 'thorough': 1}
 # box: 178650 main tuples x (on average 4.2) exclusion lists = ~755000 cases
-BUDGET = {'quick': 50000, 'thorough': 855000}
+BUDGET = {'quick': 43000, 'thorough': 835000}
 _DEFAULT_BUDGET = dict(BUDGET)
 EXHAUSTIVE = {'quick': False, 'thorough': True}
 RULE = (
@@ -38,7 +38,7 @@ RULE = (
     'exclusion sequences S/Pk, Rn/S/Pk, Pk, +P1/Pk, mixed); thorough = whole '
     'box, quick = every 20th main tuple (offset by VERIF_SEED) with the full '
     'menu. Part 2: Hypothesis draws the same forms with base values up to '
-    '10**6, steps up to 5000 and up to 400 points. Each case: is_valid on a '
+    '10**6, steps up to 5000 and up to 80 points. Each case: is_valid on a '
     'window around every anchor, get_start_point, get_stop_point, and '
     'get_first_point / get_next_point / get_prev_point / '
     'get_nearest_prev_point at every (box) or sampled (large) point between '
@@ -95,6 +95,7 @@ INF = None
 MARGIN = 6
 # frames allowed on top of 4 per consecutive excluded point
 RECURSION_ROOM = 80
+MAX_EXCLUDED_RUN = 40
 
 
 def pstr(spec):
@@ -497,8 +498,13 @@ def check_case(case, ctx: Ctx) -> CaseResult:
     for p in U:
         run = 0 if p in mset else run + 1
         best = max(best, run)
-    sys.setrecursionlimit(max(old_limit, _depth() + 200) if best > 150 else
-                          _depth() + RECURSION_ROOM + 4 * best)
+    if best > MAX_EXCLUDED_RUN:
+        # cylc walks excluded runs recursively and get_nearest_prev_point is
+        # cubic in the run length: minutes per case.  Not generated on
+        # purpose; a cost limit of the harness, not a verdict.
+        ctx.col.rejected += 1
+        return CaseResult([], False, classes + ['skipped:long-excluded-run'])
+    sys.setrecursionlimit(_depth() + RECURSION_ROOM + 4 * best)
     try:
         found = None
         for M in readings:
@@ -592,8 +598,8 @@ def _compare(seq, exp, U, window, cs, ce, whi, k, kind, big, IntegerPoint,
                      ('get_prev_point', exp.prev),
                      ('get_nearest_prev_point', exp.prev)):
         pts = qpts
-        if big and name == 'get_nearest_prev_point' and len(pts) > 10:
-            pts = pts[::max(1, len(pts) // 10)]
+        if big and name == 'get_nearest_prev_point' and len(pts) > 8:
+            pts = pts[::max(1, len(pts) // 8)]    # linear in #points each
         for p in pts:
             got = call(name, IntegerPoint(str(p)))
             want = fn(p)
@@ -706,9 +712,9 @@ def big_cases(draw):
     uses = USES[form]
     base = draw(st.one_of(st.integers(0, 50), st.integers(0, 10 ** 6)))
     k = draw(st.one_of(st.integers(1, 12), st.integers(1, 5000)))
-    m = draw(st.integers(0, 200))
+    m = draw(st.one_of(st.integers(0, 12), st.integers(0, 80)))
     cs = base
-    has_ce = draw(st.integers(0, 4)) > 0
+    has_ce = draw(st.integers(0, 3)) > 0
     ce = cs + k * m + draw(st.integers(0, k)) if has_ce else None
     span = k * m + k
 
@@ -742,10 +748,9 @@ def big_cases(draw):
     kk = prog[2] if prog[0] != 'one' else 1
     n_ex = draw(st.integers(0, 3)) if U else 0
     excl = []
-    unb = ce is None and prog_max(prog) is None
     for _ in range(n_ex):
         kind = draw(st.integers(0, 5))
-        if unb and kind in (3, 5):
+        if kind in (3, 5):
             if any('/P' in x or x.startswith('P') for x in excl
                    if not x.startswith('R')):
                 kind = 4     # at most one unbounded exclusion sequence
